@@ -295,7 +295,7 @@ impl<'a> Evaluator<'a> {
                 Some(value) => Ok(Some(value.into())),
                 None => self.error(
                     number.span,
-                    format!("number is too large: {}", number.data),
+                    format!("number is too large: {}", number.data.to_plain_string()),
                 ),
             },
             ExpressionFactor::InterpolatedString(i) => {
@@ -339,7 +339,7 @@ impl<'a> Evaluator<'a> {
                         } else {
                             return Err(EvaluationError {
                                 span: path.span,
-                                message: format!("could not interpolate '{}' because '{}' does not resolve to a string", i, path)
+                                message: format!("could not interpolate '{}' because '{}' does not resolve to a string", i.to_plain_string(), path.data)
                             });
                         }
                     }
